@@ -2,6 +2,7 @@ import Driver.Util
 import Wee.Model.AttackCache
 import Wee.Model.Cbor
 import Wee.Model.Hash
+import Wee.Model.Eval
 /-! Request handlers: for every request line the MODEL answer and the SPEC answer ("-" = no oracle). -/
 namespace Driver
 open Wee
@@ -294,6 +295,34 @@ def handle (line : String) : Out :=
             if fromSqs.any (fun s => p.at s == some (p.turn, Spec.Kind.pawn)) then Spec.sqName t else "-"
         s!"key={f[0]!}_{f[1]!}_{f[2]!}_{epAvail}"
     ⟨model, spec⟩
+  | "eval" =>
+    -- eval <w|b> <ply> <fen...>
+    let persp : Color := if parts[1]! == "w" then .white else .black
+    let ply := parts[2]!.toNat!
+    let fen := rest 3
+    let model := match parseFenM fen with
+      | Option.none => "badfen"
+      | some s => match evaluate s persp ply with
+        | Option.none => "panic"
+        | some e => toString e
+    -- spec: terminal positions have a prescribed value, all others must be non-terminal
+    let spec := match specOf fen with
+      | none => "-"
+      | some p =>
+        if !Spec.LegalPos p then "-" else
+        let mate : Int := 10000 + 100 * (max (10 - (ply : Int)) 0)
+        let sp : Spec.Color := if parts[1]! == "w" then .white else .black
+        if (Spec.legalMoves p).isEmpty then
+          if p.inCheck p.turn then (if p.turn == sp then s!"T{-mate}" else s!"T{mate}") else "T0"
+        else "N"
+    ⟨model, spec⟩
+  | "estimate" =>
+    let raw := parts[1]!.toNat!
+    let fen := rest 2
+    let model := match parseFenM fen with
+      | Option.none => "badfen"
+      | some s => toString (estimate s raw.toUInt32)
+    ⟨model, "-"⟩
   | "rng" =>
     let r := Rng.seedFromU64 parts[1]!.toNat!.toUInt64
     let n := parts[2]!.toNat!
